@@ -327,7 +327,7 @@ func (c *VConn) Close() error {
 	n.mu.Lock()
 	defer n.mu.Unlock()
 	if l.closed[c.side] {
-		return nil
+		return ErrVnetClosed // like a real socket: closing twice is an error ("use of closed network connection")
 	}
 	l.closed[c.side] = true
 	l.dir[c.side].wclosed = true
